@@ -267,18 +267,21 @@ end general
 -- Diagnostics for the build log: if one of the closed facts below fails, these lines name the
 -- rows responsible (store, role, function and line in the Go source).
 #eval show IO Unit from do
-  for e in escapedMutations escapes do
-    IO.println s!"C14 ESCAPED ALIAS MUTATED: store {repr e.store}: role {repr e.role} appends to / writes through a reference that has left the lock region it was loaded in (locks held at the write: {repr e.locks}) at {e.sites}"
-  for e in uncoveredEscapes do
-    IO.println s!"C14 UNCOVERED ESCAPE: store {repr e.store}: {if e.mutated then "write" else "read"} ({repr e.how}) by role {repr e.role} holding {repr e.locks} at {e.sites} is not covered by the protection stated for the store in AccessExpect.lean"
-  for p in (racePairs (storeRows escapes)).take 20 do
-    IO.println s!"C14 STORE RACE PAIR: {repr p.1.loc}: {repr p.1.kind} by {repr p.1.role} holding {repr p.1.locks} at {p.1.sites}  ||  {repr p.2.kind} by {repr p.2.role} holding {repr p.2.locks} at {p.2.sites}"
+  let short := fun (r : Role) => match r with
+    | .init => "init" | .main => "main" | .publish => "publish" | .refresh => "refresh"
+  let sites := fun (l : List String) => (l.take 3)
+  for p in (racePairs (storeRows escapes)).take 4 do
+    IO.println s!"C14 STORE RACE PAIR: {repr p.1.loc}: {repr p.1.kind} by {short p.1.role} holding {repr p.1.locks} at {sites p.1.sites}  ||  {repr p.2.kind} by {short p.2.role} holding {repr p.2.locks} at {sites p.2.sites}"
   for f in externalUseSites do
     if !externalsOK then IO.println s!"C14 EXTERNAL USE of shared memory: {f}"
   for f in funcValueUses do
     IO.println s!"C14 FUNCTION VALUE handed shared memory (not followed): {f}"
   for f in astWriters do
     IO.println s!"C14 WRITE INTO A SYNTAX TREE outside the parser: {f}"
+  for e in uncoveredEscapes do
+    IO.println s!"C14 UNCOVERED ESCAPE: store {e.store.name}: {if e.mutated then "write" else "read"} ({repr e.how}) by role {short e.role} holding {repr e.locks} at {sites e.sites} is not covered by the protection stated for the store in AccessExpect.lean"
+  for e in escapedMutations escapes do
+    IO.println s!"C14 ESCAPED ALIAS MUTATED: store {e.store.name}: role {short e.role} appends to / writes through a reference that has left the lock region it was loaded in (locks held at the write: {repr e.locks}) at {sites e.sites}"
 
 /-- The escape table extracted from the current Go source obeys the alias discipline: no
     reference that outlives the lock region it was loaded in is appended to or written through,
